@@ -144,7 +144,33 @@ func getParentMethodT(
 	isStatic bool,
 ) *T {
 
+	return getParentMethodTWithVisited(
+		frame,
+		class,
+		method,
+		isPrivate,
+		isStatic,
+		make(map[ClassNode]bool),
+	)
+}
+
+// visited keeps the ancestor walk finite when the hierarchy contains a cycle
+func getParentMethodTWithVisited(
+	frame string,
+	class string,
+	method string,
+	isPrivate bool,
+	isStatic bool,
+	visited map[ClassNode]bool,
+) *T {
+
 	classNode := ClassNode{Frame: frame, Class: class}
+
+	if visited[classNode] {
+		return nil
+	}
+
+	visited[classNode] = true
 
 	for _, parentNode := range ClassInheritanceMap[classNode] {
 		var methodT *T
@@ -221,12 +247,13 @@ func getParentMethodT(
 		}
 
 		methodT =
-			getParentMethodT(
+			getParentMethodTWithVisited(
 				parentNode.Frame,
 				parentNode.Class,
 				method,
 				isPrivate,
 				isStatic,
+				visited,
 			)
 
 		if methodT != nil {
@@ -441,7 +468,34 @@ func setParentValueT(
 	isStatic bool,
 ) bool {
 
+	return setParentValueTWithVisited(
+		frame,
+		class,
+		method,
+		variable,
+		t,
+		isStatic,
+		make(map[ClassNode]bool),
+	)
+}
+
+func setParentValueTWithVisited(
+	frame string,
+	class string,
+	method string,
+	variable string,
+	t *T,
+	isStatic bool,
+	visited map[ClassNode]bool,
+) bool {
+
 	classNode := ClassNode{Frame: frame, Class: class}
+
+	if visited[classNode] {
+		return false
+	}
+
+	visited[classNode] = true
 
 	for _, parentNode := range ClassInheritanceMap[classNode] {
 		_, ok :=
@@ -466,7 +520,15 @@ func setParentValueT(
 		}
 
 		ok =
-			setParentValueT(parentNode.Frame, parentNode.Class, method, variable, t, isStatic)
+			setParentValueTWithVisited(
+				parentNode.Frame,
+				parentNode.Class,
+				method,
+				variable,
+				t,
+				isStatic,
+				visited,
+			)
 
 		if ok {
 			return true
@@ -521,7 +583,32 @@ func getParentValueT(
 	isStatic bool,
 ) *T {
 
+	return getParentValueTWithVisited(
+		frame,
+		class,
+		method,
+		variable,
+		isStatic,
+		make(map[ClassNode]bool),
+	)
+}
+
+func getParentValueTWithVisited(
+	frame string,
+	class string,
+	method string,
+	variable string,
+	isStatic bool,
+	visited map[ClassNode]bool,
+) *T {
+
 	classNode := ClassNode{Frame: frame, Class: class}
+
+	if visited[classNode] {
+		return nil
+	}
+
+	visited[classNode] = true
 
 	for _, parentNode := range ClassInheritanceMap[classNode] {
 		t, ok :=
@@ -538,7 +625,14 @@ func getParentValueT(
 		}
 
 		valueT :=
-			getParentValueT(parentNode.Frame, parentNode.Class, method, variable, isStatic)
+			getParentValueTWithVisited(
+				parentNode.Frame,
+				parentNode.Class,
+				method,
+				variable,
+				isStatic,
+				visited,
+			)
 
 		if valueT != nil {
 			return valueT
